@@ -9,6 +9,11 @@
 // returned by a retrieval afterwards (or, reset only, is owned); owned
 // transactions get no new queue entry; a complete or not yet expired aggregator
 // survives expiry; verifier entries of other proposals survive.
+// "self" cases hand a local batch (CosiActionSelfEmpty) to the real cosiHook of the
+// node's own chain in the situations in which the kernel rejects or defers the
+// announcement (a member finalized by another snapshot, chain not broadcast yet,
+// node catching up, pledging chain without state): the proposal is retired before
+// an aggregator exists, and the same no-loss oracle applies to its members.
 package main
 
 import (
@@ -62,7 +67,7 @@ type Case struct {
 	Txs   []Tx     `json:"txs"`
 	Props []Prop   `json:"props"`
 	Vers  []VEntry `json:"vers"`
-	Op    string   `json:"op"` // retry abandon expire reset requeue | kqueue kstore (kernel/node.go wrappers)
+	Op    string   `json:"op"` // retry abandon expire reset requeue | kqueue kstore (kernel/node.go wrappers) | self (Idx = situation)
 	Idx   int      `json:"idx,omitempty"`
 	Now   uint64   `json:"now,omitempty"`
 	List  []int    `json:"list,omitempty"` // owned (reset) / hashes (requeue)
@@ -84,6 +89,9 @@ func setup() func() {
 	node, store, err = kernel.VerifC24SetupNode(dir, filepath.Join(repo, "config", "genesis.json"))
 	if err != nil {
 		panic(err)
+	}
+	if !node.VerifC24PrepareSelf() {
+		panic("the node's own chain is not usable for self announcements")
 	}
 	return func() { store.Close(); os.RemoveAll(dir) }
 }
@@ -286,6 +294,7 @@ func run(c *vh.Ctx, cs Case) {
 	}
 
 	// the retire path
+	selfLive := false
 	var opTerm string
 	retired := map[int]bool{}
 	switch cs.Op {
@@ -316,6 +325,15 @@ func run(c *vh.Ctx, cs Case) {
 		}
 	case "requeue":
 		node.VerifC24Requeue(w.hashes(cs.List))
+		opTerm = vh.App("RRequeue", w.hList(w.hashes(cs.List)))
+	case "self":
+		// a local batch handed to the real cosiHook as CosiActionSelfEmpty; in each of these
+		// situations the kernel rejects or defers the announcement, which retires the proposal
+		nagg, nver, err := node.VerifC24SelfAnnounce(w.hashes(cs.List), cs.Idx)
+		if err != nil {
+			c.Fail("self-announce-error", "cosiHook returned an error for a self announcement: "+err.Error(), cs)
+		}
+		selfLive = nagg > 0 || nver > 0
 		opTerm = vh.App("RRequeue", w.hList(w.hashes(cs.List)))
 	case "kqueue", "kstore":
 		peer := crypto.Blake3Hash([]byte("verif-c24-peer"))
@@ -446,7 +464,11 @@ func run(c *vh.Ctx, cs Case) {
 			}
 		}
 	}
-	if cs.Op == "requeue" || cs.Op == "kqueue" {
+	if cs.Op == "self" && selfLive {
+		c.Fail("self-announced", "a self announcement that must be rejected or deferred installed an aggregator or verifier", cs)
+		term = ""
+	}
+	if cs.Op == "requeue" || cs.Op == "kqueue" || cs.Op == "self" {
 		for _, t := range cs.List {
 			need[t] = true
 		}
@@ -596,7 +618,11 @@ func gen(c *vh.Ctx) Case {
 			}
 		}
 	}
-	switch x := r.Intn(11); {
+	switch x := r.Intn(12); {
+	case x == 11:
+		cs.Op = "self"
+		cs.Idx = r.Intn(3)
+		cs.List = genBatch(r, cs.Txs, cs.Idx)
 	case x == 10:
 		cs.Op = []string{"kqueue", "kstore"}[r.Intn(2)]
 		for k, n := 0, r.Range(1, 5); k < n; k++ {
@@ -644,6 +670,54 @@ func gen(c *vh.Ctx) Case {
 	return cs
 }
 
+// genBatch: a local batch of 1..6 distinct members.  In the pledging situation the
+// members are validated before the rejection: the synthetic cache-only bodies (no
+// inputs) would fail Validate for a reason that is not a retry reason, so there a
+// cache-only member is only placed behind a member finalized elsewhere.
+func genBatch(r *vh.Rand, txs []Tx, situation int) []int {
+	perm := make([]int, len(txs))
+	for i := range perm {
+		perm[i] = i
+	}
+	for i := len(perm) - 1; i > 0; i-- {
+		j := r.Intn(i + 1)
+		perm[i], perm[j] = perm[j], perm[i]
+	}
+	n := r.Range(1, 6)
+	if n > len(perm) {
+		n = len(perm)
+	}
+	batch := perm[:n]
+	if situation != 0 {
+		return batch
+	}
+	var out, late []int
+	seenFinal := false
+	for _, t := range batch {
+		switch {
+		case txs[t].Persist:
+			out = append(out, t)
+			seenFinal = seenFinal || txs[t].Final
+		case txs[t].Cache == cacheCorrupt:
+		default:
+			late = append(late, t)
+		}
+	}
+	if seenFinal {
+		// finalized member first, then everything else
+		var fin, rest []int
+		for _, t := range out {
+			if txs[t].Final && len(fin) == 0 {
+				fin = append(fin, t)
+			} else {
+				rest = append(rest, t)
+			}
+		}
+		out = append(append(fin, rest...), late...)
+	}
+	return out
+}
+
 func corpus() []Case {
 	T := node.Epoch + 24*3600*1000000000
 	b := node.VerifC24Threshold(T)
@@ -680,6 +754,14 @@ func corpus() []Case {
 		// kernel TestCacheStoreTransactionsDoesNotQueue, and the queueing wrapper with a finalized transaction
 		{Salt: 12, Txs: []Tx{{}, {Persist: true}, popped}, Props: []Prop{{Ts: T, Txs: nil}}, Op: "kstore", List: []int{0, 1, 2}},
 		{Salt: 13, Txs: []Tx{{}, {Persist: true, Final: true}, popped, {Cache: cacheStored}}, Props: []Prop{{Ts: T, Txs: nil}}, Op: "kqueue", List: []int{0, 1, 2, 3}},
+		// local batches through the real cosiHook: a member finalized elsewhere, the chain not yet broadcast, the node catching up,
+		// a pledging chain that defers; pending members have their body in the cache (popped) or in the persistent store
+		{Salt: 14, Txs: []Tx{{Persist: true, Final: true}, popped}, Props: []Prop{{Ts: T}}, Op: "self", Idx: 0, List: []int{0, 1}},
+		{Salt: 15, Txs: []Tx{{Persist: true}, {Persist: true, Final: true}, popped, {Persist: true, Cache: cachePopped}}, Props: []Prop{{Ts: T}}, Op: "self", Idx: 0, List: []int{0, 1, 2, 3}},
+		{Salt: 16, Txs: []Tx{popped, {Persist: true}, {Persist: true, Final: true}}, Props: []Prop{{Ts: T}}, Op: "self", Idx: 1, List: []int{0, 1, 2}},
+		{Salt: 17, Txs: []Tx{popped, {Persist: true}, {Persist: true, Final: true}, {Cache: cacheStored}}, Props: []Prop{{Ts: T}}, Op: "self", Idx: 2, List: []int{0, 1, 2, 3}},
+		{Salt: 18, Txs: []Tx{{Persist: true}, {Persist: true, Cache: cachePopped}}, Props: []Prop{{Ts: T}}, Op: "self", Idx: 0, List: []int{0, 1}},
+		{Salt: 19, Txs: []Tx{popped}, Props: []Prop{{Ts: T}}, Op: "self", Idx: 1, List: []int{0}},
 	}
 }
 
@@ -688,7 +770,8 @@ func main() {
 	c.Rep.Rule = "corpus (the two kernel tests, complete / incomplete aggregators at the expiry instant, shared transactions, every body state, " +
 		"foreign abandon, uint64 edge), then random cases: 1..8 transactions (persistent/cache/none/undecodable bodies, finalized or not, " +
 		"pending or already retrieved), 1..5 proposals with overlapping transaction lists, counts around the consensus threshold, timestamps " +
-		"around now-gap, verifier map as the announcement handlers fill it (1/4 perturbed); one of expire/reset/retry/abandon/requeue. " +
+		"around now-gap, verifier map as the announcement handlers fill it (1/4 perturbed); one of expire/reset/retry/abandon/requeue, the kernel/node.go cache wrappers, or a local batch of 1..6 members " +
+		"(some finalized elsewhere, others pending with cache or persistent bodies) through the real cosiHook in each rejecting/deferring situation. " +
 		"Non-trivial = a transaction had to be re-queued or verifier entries were removed; distinct by the whole case."
 	closeAll := setup()
 	defer closeAll()
